@@ -48,6 +48,7 @@ theorem doCopyfile_file_spec (cfg : Cfg) (hdry : cfg.dryRun = false) (honly : cf
     (fp to : Str) (m d t : Nat) (mk : Option Str) (fo : Option Bool) (s : St) (hNL : NL s.fs)
     (hk : keyOf cfg.cwd to ≠ [])
     (hf : (doCopyfile cfg fp (.file m d t) to mk fo s).1.failed = false) :
+    (doCopyfile cfg fp (.file m d t) to mk fo s).2 = true ∧
     NL (doCopyfile cfg fp (.file m d t) to mk fo s).1.fs ∧
     (doCopyfile cfg fp (.file m d t) to mk fo s).1.fs.get (keyOf cfg.cwd to) = some (.file m d t) ∧
     ∀ k, k ≠ keyOf cfg.cwd to →
@@ -90,7 +91,7 @@ theorem doCopyfile_file_spec (cfg : Cfg) (hdry : cfg.dryRun = false) (honly : cf
     obtain ⟨_, _, _, hput⟩ := putFile_success cfg hdry _ m d t _ hk hNL1 hpf
     simp only [hpf, Bool.false_eq_true, if_false]
     rw [hput]
-    refine ⟨hfile_nl _ hNL1, by simp [St.logLine, St.write, get_set_same], fun k hkk => Or.inl ?_⟩
+    refine ⟨trivial, hfile_nl _ hNL1, by simp [St.logLine, St.write, get_set_same], fun k hkk => Or.inl ?_⟩
     simp [St.logLine, St.write, St.erase, get_set_other _ _ _ _ hkk, get_del_other _ _ _ hkk]
   · simp only [hC1, hP, Bool.or_self, Bool.false_eq_true, if_false, hpay] at hf ⊢
     rw [hC4] at hf hP ⊢
@@ -102,7 +103,7 @@ theorem doCopyfile_file_spec (cfg : Cfg) (hdry : cfg.dryRun = false) (honly : cf
     obtain ⟨_, _, _, hput⟩ := putFile_success cfg hdry _ m d t _ hk hNL1 hpf
     simp only [hpf, Bool.false_eq_true, if_false]
     rw [hput]
-    refine ⟨hfile_nl _ hNL1, by simp [St.logLine, St.write, get_set_same], fun k hkk => ?_⟩
+    refine ⟨trivial, hfile_nl _ hNL1, by simp [St.logLine, St.write, get_set_same], fun k hkk => ?_⟩
     simp only [St.logLine, St.write, get_set_other _ _ _ _ hkk]
     rcases hspec k with e | ⟨e1, e2⟩
     · exact Or.inl e
@@ -116,7 +117,7 @@ theorem doCopyfile_file_spec (cfg : Cfg) (hdry : cfg.dryRun = false) (honly : cf
     obtain ⟨_, _, _, hput⟩ := putFile_success cfg hdry _ m d t _ hk hNL hpf
     simp only [hpf, Bool.false_eq_true, if_false]
     rw [hput]
-    refine ⟨hfile_nl _ hNL, by simp [St.logLine, St.write, get_set_same], fun k hkk => Or.inl ?_⟩
+    refine ⟨trivial, hfile_nl _ hNL, by simp [St.logLine, St.write, get_set_same], fun k hkk => Or.inl ?_⟩
     simp [St.logLine, St.write, get_set_other _ _ _ _ hkk]
 
 /-- `set_mode` on an installed file applies the documented permission rule and touches nothing else -/
@@ -174,7 +175,7 @@ theorem installFileTo_exact (cfg : Cfg) (hdry : cfg.dryRun = false) (honly : cfg
   · simp [hc] at hf
   · have hc' : (doCopyfile cfg e.path (.file m d t) out (some outdir) fo s).1.failed = false := by simpa using hc
     simp only [hc', Bool.false_eq_true, if_false] at hf ⊢
-    obtain ⟨_, h2, h3⟩ := doCopyfile_file_spec cfg hdry honly e.path out m d t (some outdir) fo s hNL hk hc'
+    obtain ⟨h22, _, h2, h3⟩ := doCopyfile_file_spec cfg hdry honly e.path out m d t (some outdir) fo s hNL hk hc'
     have key : ∀ s2 : St, s2.fs = (doCopyfile cfg e.path (.file m d t) out (some outdir) fo s).1.fs →
         (setMode cfg (keyOf cfg.cwd out) e.mode s2).fs.get (keyOf cfg.cwd out) =
           some (.file (modeRule cfg e.mode m) d t) ∧
@@ -183,11 +184,9 @@ theorem installFileTo_exact (cfg : Cfg) (hdry : cfg.dryRun = false) (honly : cfg
       intro s2 hs2
       obtain ⟨a, b, _⟩ := setMode_file_spec cfg hdry _ hk e.mode s2 m d t (by rw [hs2]; exact h2)
       exact ⟨a, fun k hkk => by rw [b k hkk, hs2]⟩
-    split
-    · obtain ⟨a, b⟩ := key { (doCopyfile cfg e.path (.file m d t) out (some outdir) fo s).1 with didInstall := true } rfl
-      exact ⟨a, fun k hkk => by rw [b k hkk]; exact h3 k hkk⟩
-    · obtain ⟨a, b⟩ := key (doCopyfile cfg e.path (.file m d t) out (some outdir) fo s).1 rfl
-      exact ⟨a, fun k hkk => by rw [b k hkk]; exact h3 k hkk⟩
+    simp only [h22, if_true]
+    obtain ⟨a, b⟩ := key { (doCopyfile cfg e.path (.file m d t) out (some outdir) fo s).1 with didInstall := true } rfl
+    exact ⟨a, fun k hkk => by rw [b k hkk]; exact h3 k hkk⟩
 
 theorem installFileTo_NL (cfg : Cfg) (hdry : cfg.dryRun = false) (honly : cfg.onlyChanged = false)
     (e : DataEntry) (out outdir : Str) (fo : Option Bool) (s : St) (m d t : Nat) (hsrc : e.src = .file m d t)
